@@ -59,7 +59,7 @@ CONSTANTS MaxPosOnly, MaxFlex, MaxKwOnly,  \* parameters of each named kind (var
           ShardKw,      \*   (pos-only + flexible) and this many keyword-only parameters; 99 = any
           ShardMod, ShardRem,  \* ... and SigCode(sig) % ShardMod = ShardRem  (splits big shards further)
           Mutant        \* "none" | "index_off" | "kwable_posonly" | "slice_early" | "check_defaults"
-                        \* | "call_twice" | "none_unpassed"
+                        \* | "call_twice" | "none_unpassed" | "kind_from_inner"
 
 PON == <<"a1", "a2", "a3">>          \* positional-only names
 FLN == <<"b1", "b2", "b3">>          \* flexible names
@@ -197,6 +197,23 @@ VariantSeq == << [body |-> "return", ret |-> "unann"], [body |-> "return", ret |
 Ctx(sig, c, code) == [sig |-> sig, c |-> c, G |-> code.G, needlen |-> code.needlen, kwable |-> code.kwable,
                       func |-> code.func, n |-> Len(c.pos), K |-> DOMAIN c.kw]
 
+(* ---- the kind of the decorated callable and of its wrapper ------------------------- *)
+\* What is handed to @beartype is a synchronous def or a coroutine function (dec); it may be a
+\* functools.wraps facade -- signature (star-args, star-star-kwargs), __wrapped__ and __annotations__ copied
+\* -- around an inner callable of ANOTHER kind (inner).  Parameter names and kinds are read from the
+\* innermost wrappee (func_wrappee_wrappee); the KIND of the generated wrapper ("def" or "async def ..
+\* await") must follow the callable that is decorated and called (func_wrappee), whatever it wraps.
+ShapeSeq == << [dec |-> "sync", inner |-> "none"], [dec |-> "coro", inner |-> "none"],
+               [dec |-> "sync", inner |-> "sync"], [dec |-> "sync", inner |-> "coro"],
+               [dec |-> "sync", inner |-> "gen"] >>
+Innermost(sh) == IF sh.inner = "none" THEN sh.dec ELSE sh.inner
+\* is_func_coro(code object of ...): mutant "kind_from_inner" reads the innermost wrappee's code object
+WrapperKind(sh) ==
+  IF Mutant = "kind_from_inner" THEN (IF Innermost(sh) = "coro" THEN "coro" ELSE "sync") ELSE sh.dec
+\* the caller drives the decorated callable the way its own kind demands (plain call / await); a wrapper
+\* of the other kind hands back an un-awaited coroutine: nothing is checked, nothing runs
+KindsOK == \A j \in DOMAIN ShapeSeq : WrapperKind(ShapeSeq[j]) = ShapeSeq[j].dec
+
 Idle == [pc |-> "idle", i |-> 1, alen |-> 0, checked |-> <<>>, ran |-> 0, recv |-> NoBind, out |-> "", blame |-> ""]
 Enter(x) == [Idle EXCEPT !.pc = IF x.needlen THEN "argslen" ELSE IF x.G = <<>> THEN "call" ELSE "check"]
 
@@ -306,8 +323,12 @@ AddParam(kind, ann, dflt) ==
   /\ sig' = Append(sig, [kind |-> kind, name |-> NewName(sig, kind), ann |-> ann, dflt |-> dflt])
   /\ code' = GenCode(sig')
   /\ UNCHANGED <<call, var, w>>
-Invoke(c) ==
-  /\ call' = c /\ w' = Enter(Ctx(sig, c, code)) /\ UNCHANGED <<sig, code, var>>
+\* (the shape is not kept in the state: with the intended design every shape gives the same frame)
+Invoke(c, sh) ==
+  /\ call' = c
+  /\ w' = IF WrapperKind(sh) = sh.dec THEN Enter(Ctx(sig, c, code))
+          ELSE [Idle EXCEPT !.pc = "done", !.out = "kind-mismatch"]
+  /\ UNCHANGED <<sig, code, var>>
 InitArgsLen  == w.pc = "argslen" /\ w' = StepArgsLen(X, w) /\ UNCHANGED <<sig, code, call, var>>
 CheckPosOnly == CurKind(code.G, w) = "posonly" /\ w' = StepPosOnly(X, w) /\ UNCHANGED <<sig, code, call, var>>
 CheckFlex    == CurKind(code.G, w) = "flex"    /\ w' = StepFlex(X, w)    /\ UNCHANGED <<sig, code, call, var>>
@@ -319,7 +340,8 @@ CallOriginal(v) == w.pc = "call" /\ var' = v /\ w' = StepCall(X, v, w) /\ UNCHAN
 CheckReturn  == w.pc = "ret" /\ w' = StepRet(X, var, w) /\ UNCHANGED <<sig, code, call, var>>
 
 Next == \/ \E k \in {"posonly", "flex", "varpos", "kwonly", "varkw"}, a \in BOOLEAN, d \in BOOLEAN : AddParam(k, a, d)
-        \/ \E c \in (IF Mode = "check" /\ w.pc = "idle" THEN Calls(sig) ELSE {}) : Invoke(c)
+        \/ \E c \in (IF Mode = "check" /\ w.pc = "idle" THEN Calls(sig) ELSE {}) :
+              \E j \in DOMAIN ShapeSeq : Invoke(c, ShapeSeq[j])
         \/ InitArgsLen \/ CheckPosOnly \/ CheckFlex \/ CheckVarPos \/ CheckKwOnly \/ CheckVarKw
         \/ Raise \/ (\E v \in Variants : CallOriginal(v)) \/ CheckReturn
 Spec == Init /\ [][Next]_vars
@@ -334,6 +356,8 @@ Transparent      == Done => HTransparent(PGood, PB, var, w)
 Unbindable       == Done => HUnbindable(PB, w)
 \* the original never runs before all parameter checks are through, and at most once
 RanLate          == w.ran <= 1 /\ (w.ran = 1 => w.pc \in {"ret", "done"})
+\* the wrapper is of the kind of the callable it wraps, whatever that callable itself wraps
+KindFollows      == w.out # "kind-mismatch"
 \* the action-by-action run and the iterated step function agree
 AgreesWithRun    == Done => w = Run(X, var)
 
@@ -365,10 +389,12 @@ SigCode(s) == IF s = <<>> THEN 0
                    2 * SigCode(SubSeq(s, 1, Len(s) - 1)) + (IF q.ann THEN 1 ELSE 0) + (IF q.dflt THEN 3 ELSE 0) + Rank(q.kind)
 InShard(s) == /\ (ShardPos = 99 \/ ShardPos = NPos(s)) /\ (ShardKw = 99 \/ ShardKw = Count(s, "kwonly"))
               /\ SigCode(s) % ShardMod = ShardRem
+ShapeRows == [j \in DOMAIN ShapeSeq |-> [dec |-> ShapeSeq[j].dec, inner |-> ShapeSeq[j].inner,
+                                        wrapper |-> WrapperKind(ShapeSeq[j])]]
 Row(s, cd) == [sig |-> s, gen |-> [j \in DOMAIN cd.G |-> <<cd.G[j].kind, cd.G[j].name, cd.G[j].idx>>],
                needlen |-> cd.needlen, kwable |-> cd.kwable, haskw |-> Has(s, "varkw"),
-               variants |-> VariantSeq, calls |-> { CallRow(s, cd, c) : c \in Calls(s) }]
+               variants |-> VariantSeq, shapes |-> ShapeRows, calls |-> { CallRow(s, cd, c) : c \in Calls(s) }]
 Printable(row) == [row EXCEPT !.calls = { [f \in DOMAIN r \ {"h"} |-> r[f]] : r \in row.calls }]
 Emit == (Mode = "emit" /\ InShard(sig)) =>
-          LET row == Row(sig, code) IN PrintT(ToJson(Printable(row))) /\ \A r \in row.calls : r.h
+          LET row == Row(sig, code) IN PrintT(ToJson(Printable(row))) /\ KindsOK /\ \A r \in row.calls : r.h
 =============================================================================
